@@ -62,7 +62,15 @@ var unaryRPCs = []string{
 	"ReportSplit", "ReportBatchSplit", "GetClusterConfig", "PutClusterConfig", "ScatterRegion",
 	"GetGCSafePoint", "UpdateGCSafePoint", "UpdateServiceGCSafePoint", "GetOperator", "SplitRegions",
 	"GetMembers", "PutClusterConfig", "PutClusterConfig",
+	"SyncMaxTS", "GetDCLocationInfo",
 }
+
+// internalRPCs: PD-to-PD calls (validateInternalRequest). Their real callers (server/tso) send a header
+// with the sender's member id and NO cluster id, so an absent / zero cluster id is how these requests
+// legitimately look; a header that does state a cluster id, and another cluster's, must be refused.
+var internalRPCs = map[string]bool{"SyncMaxTS": true, "GetDCLocationInfo": true}
+
+const knownInternalForeignID = "C20/internal-requests-accept-foreign-cluster-id"
 
 // RPCs that allocate ids when they are served.
 var allocating = map[string]bool{"AllocID": true, "AskSplit": true, "AskBatchSplit": true}
@@ -318,6 +326,14 @@ func (s *rstream) next(wantErr bool, d time.Duration) (recvItem, bool) {
 // ---------------------------------------------------------------- ids, refusal form
 
 func (r *refRun) header(st RStep) (*pdpb.RequestHeader, bool) {
+	h, right := r.header0(st)
+	if internalRPCs[st.RPC] && h.GetClusterId() == 0 {
+		right = true // no cluster id stated: the legitimate form of a PD-to-PD request
+	}
+	return h, right
+}
+
+func (r *refRun) header0(st RStep) (*pdpb.RequestHeader, bool) {
 	switch st.ID {
 	case 0:
 		return &pdpb.RequestHeader{ClusterId: r.cid}, true
@@ -541,12 +557,20 @@ func (r *refRun) region(version uint64) *metapb.Region {
 
 func (r *refRun) unary(st RStep, what string) error {
 	h, right := r.header(st)
+	if internalRPCs[st.RPC] {
+		// as a PD member would send it: with the leader's member id as sender
+		if h == nil {
+			h = &pdpb.RequestHeader{}
+		}
+		h.SenderId = r.f.svr.GetMember().ID()
+	}
 	r.seq++
 	r.refused, r.putCfg = false, nil
 	ctx, cancel := context.WithTimeout(context.Background(), 15*time.Second)
 	defer cancel()
 	var err error
 	var rh *pdpb.ResponseHeader
+	ctx0 := ctx
 	c, ctx := r.route(st.Via, ctx)
 	switch st.RPC {
 	case "Bootstrap":
@@ -692,6 +716,14 @@ func (r *refRun) unary(st RStep, what string) error {
 		var resp *pdpb.SplitRegionsResponse
 		resp, err = c.SplitRegions(ctx, &pdpb.SplitRegionsRequest{Header: h})
 		rh = resp.GetHeader()
+	case "SyncMaxTS":
+		var resp *pdpb.SyncMaxTSResponse
+		resp, err = r.cli.SyncMaxTS(ctx0, &pdpb.SyncMaxTSRequest{Header: h, SkipCheck: true, MaxTs: &pdpb.Timestamp{Physical: 1, Logical: 1}})
+		rh = resp.GetHeader()
+	case "GetDCLocationInfo":
+		var resp *pdpb.GetDCLocationInfoResponse
+		resp, err = r.cli.GetDCLocationInfo(ctx0, &pdpb.GetDCLocationInfoRequest{Header: h, DcLocation: "dc-1"})
+		rh = resp.GetHeader()
 	case "GetMembers":
 		// the documented exception: answers whatever cluster id the caller believes in
 		resp, e := c.GetMembers(ctx, &pdpb.GetMembersRequest{Header: h})
@@ -707,6 +739,12 @@ func (r *refRun) unary(st RStep, what string) error {
 	}
 	if right && isEnv(err) {
 		return errInconclusive
+	}
+	if internalRPCs[st.RPC] && !right && !isMismatch(err) && !isEnv(err) && vkit.Known(knownInternalForeignID) {
+		// known finding: validateInternalRequest does not look at the cluster id at all
+		r.info.Exclude(knownInternalForeignID)
+		r.refused = err != nil || rh.GetError() != nil
+		return nil
 	}
 	r.refused = err != nil || rh.GetError() != nil
 	if right && err == nil && rh.GetClusterId() != r.cid {
